@@ -75,12 +75,16 @@ effect inside `debug_assert!` that only an ordinary release build shows (C04g: b
 value that remembers what it was asked first (C02g: value re-use probe); an endless loop (C17g:
 watchdog); a changed public signature that stopped the harness from compiling (C12g); a `+` that
 `from_str_radix` accepts in place of a hex digit (C19g: digit-substitution family); repeated member
-names with surplus keys (C09g).  Rounds 8–9 (17 and 14+ of 20): a salt written into a 256-byte slice
+names with surplus keys (C09g).  Rounds 8–9 (18 of 20 and 15 of 19): a salt written into a 256-byte slice
 (C02h: long passphrases); a fast path that stops after five members (C20h); an option that started
 to listen to an environment variable (C11i: ambient-environment probe); Unicode look-alikes folded
 into path syntax (C14i); a hand-written `Clone` that drops the checksum byte (C01i/C12i: clone
 probes, empty-prefix vanity searches with worker threads); the passphrase `-` read from standard
-input (C02i: sentinel-like passphrases).  Two things held throughout:
+input (C02i: sentinel-like passphrases).  Round 10 (17 of 20): recovery ids 2 and 3, whose upper bit
+must play no part in `v` (C11j); declared domain member names that only *look* like the standard ones
+while the value is keyed by the standard name (C20j); progress dots on standard output that appear only
+after a worker has passed a thousand candidates (C18j: 3- and 4-digit searches with few workers, standard
+output must be exactly the phrase line).  Two things held throughout:
 every miss was a missing *input family or observable*, never a wrong theorem or model, and every
 family added for one property was then applied to the others it fits.
 
